@@ -602,8 +602,24 @@ func (c *Ctx) atCallClauses(st *State, fr *Frame, cc *ssa.CallCommon, instr ssa.
 			env.vars[fmt.Sprintf("arg%d", i-off)] = args[i]
 		}
 		env.goal = true
-		g := env.evalBool(cl.E)
-		c.oblige(st, fr, "atcall", cl.Site, cl.Label, instr.Pos(), g, cl.Props, cl.Src)
+		var g Term
+		src := cl.Src
+		func() {
+			// a required clause that can no longer be stated (it names something the function does not have any more)
+			// cannot hold: the obligation fails instead of leaving the function undecided
+			defer func() {
+				if r := recover(); r != nil {
+					if ee, ok := r.(evalErr); ok && cl.Required {
+						g = tFalse
+						src += "  -- VIOLATED: the clause cannot be stated on this code: " + ee.msg
+						return
+					}
+					panic(r)
+				}
+			}()
+			g = env.evalBool(cl.E)
+		}()
+		c.oblige(st, fr, "atcall", cl.Site, cl.Label, instr.Pos(), g, cl.Props, src)
 	}
 }
 
